@@ -7,7 +7,7 @@
 package keeper
 
 //@ ghost str_store (Array stream.Key (Slice Int))
-//@ kvstore str_store str_key
+//@ kvstore str_store str_key str_prefix str_inprefix str_keylt stream.Key
 
 // ---------------------------------------------------------------- L1
 
@@ -388,6 +388,25 @@ package keeper
 //@   props C10 C15
 //@   pure
 //@   ensures r != nil ==> bytesval(acctAddr(r)) == bytesval(modAddr("stream"))
+
+// Genesis export (C15): every stored stream is listed exactly once, in key order, under the receiver and sender it is
+// keyed by (as spellings that decode back to those addresses) and with the record as stored; the parameters are the
+// stored ones.  Importing such a document (InitGenesis below) stores the same records under the same keys.
+//@ func Keeper.IterateAllStreams(ctx, cb)
+//@   inline
+//@ func Keeper.ExportGenesis(ctx) (gs)
+//@   props C15
+//@   pure
+//@   let ss := gs.Streams
+//@   ensures @params_as_stored strParamsSet(str_store) ==> gs.Params == strParams(str_store)
+//@   ensures @streams_as_stored forall j int :: {ss[j]} 0 <= j && j < len(ss) ==> validBech32(ss[j].Receiver) && validBech32(ss[j].Sender) && strHas(str_store, addrB(ss[j].Receiver), addrB(ss[j].Sender)) && ss[j].Stream == strGet(str_store, addrB(ss[j].Receiver), addrB(ss[j].Sender))
+//@   ensures @every_stream forall r `BytesV`, sd `BytesV` :: {str_store[kStream(r, sd)]} strHas(str_store, r, sd) ==> exists j int :: 0 <= j && j < len(ss) && addrB(ss[j].Receiver) == r && addrB(ss[j].Sender) == sd
+//@   ensures @each_once_in_key_order forall i int, j int :: {ss[i], ss[j]} 0 <= i && i < j && j < len(ss) ==> pairLt(addrB(ss[i].Receiver), addrB(ss[i].Sender), addrB(ss[j].Receiver), addrB(ss[j].Sender))
+//@   loop IterateAllStreams.0: invariant it_store == str_store && str_store == old(str_store) && len(streams) >= 0
+//@   loop IterateAllStreams.0: invariant it_valid ==> isStreamKey(it_key) && strHas(str_store, streamKeyR(it_key), streamKeyS(it_key))
+//@   loop IterateAllStreams.0: invariant forall j int :: {streams[j]} 0 <= j && j < len(streams) ==> validBech32(streams[j].Receiver) && validBech32(streams[j].Sender) && strHas(str_store, addrB(streams[j].Receiver), addrB(streams[j].Sender)) && streams[j].Stream == strGet(str_store, addrB(streams[j].Receiver), addrB(streams[j].Sender)) && (it_valid ==> pairLt(addrB(streams[j].Receiver), addrB(streams[j].Sender), streamKeyR(it_key), streamKeyS(it_key)))
+//@   loop IterateAllStreams.0: invariant forall i int, j int :: {streams[i], streams[j]} 0 <= i && i < j && j < len(streams) ==> pairLt(addrB(streams[i].Receiver), addrB(streams[i].Sender), addrB(streams[j].Receiver), addrB(streams[j].Sender))
+//@   loop IterateAllStreams.0: invariant forall r `BytesV`, sd `BytesV` :: {str_store[kStream(r, sd)]} strHas(str_store, r, sd) && (!it_valid || pairLt(r, sd, streamKeyR(it_key), streamKeyS(it_key))) ==> exists j int :: 0 <= j && j < len(streams) && addrB(streams[j].Receiver) == r && addrB(streams[j].Sender) == sd
 
 //@ func Keeper.InitGenesis(ctx, genState)
 //@   props C10 C15
